@@ -75,6 +75,13 @@ func (d *Doc) BytesXRefStream(useObjStm bool) []byte {
 			fmt.Fprintf(&prolog, "%d ", v)
 		}
 		data := append(prolog.Bytes(), body.Bytes()...)
+		if d.Override["ObjStmPad"] != "" {
+			var n int
+			fmt.Sscan(d.Override["ObjStmPad"], &n) // pad the decoded stream to a total of n bytes
+			if n > len(data) {
+				data = append(data, bytes.Repeat([]byte{' '}, n-len(data))...)
+			}
+		}
 		enc := deflate(data)
 		ents[osNr] = ent{1, b.Len(), 0}
 		nTxt, firstTxt := fmt.Sprint(len(inStm)), fmt.Sprint(prolog.Len())
@@ -127,6 +134,13 @@ func (d *Doc) BytesXRefStream(useObjStm bool) []byte {
 		rows.WriteByte(byte(e[0]))
 		rows.Write([]byte{byte(e[1] >> 24), byte(e[1] >> 16), byte(e[1] >> 8), byte(e[1])})
 		rows.Write([]byte{byte(e[2] >> 8), byte(e[2])})
+	}
+	if d.Override["XRefPad"] != "" {
+		var n int
+		fmt.Sscan(d.Override["XRefPad"], &n) // pad the decoded data to a total of n bytes
+		if n > rows.Len() {
+			rows.Write(make([]byte, n-rows.Len()))
+		}
 	}
 	enc := deflate(rows.Bytes())
 	extra := ""
